@@ -36,6 +36,7 @@ type Program struct {
 	Faults   []Fault  `json:"faults,omitempty"`
 	Preload  []int    `json:"preload,omitempty"` // payloads already on adapter 0 before binding
 	BadEntry []int    `json:"badentry,omitempty"` // positions (in Preload order) of undecodable entries
+	BadKinds []int    `json:"badkinds,omitempty"` // what each of them looks like (see adapter.preload)
 	Paused   bool     `json:"paused,omitempty"`  // pause right after setup
 	CrashAt  int      `json:"crashat,omitempty"` // cut the execution after this many adapter calls and recover (0 = never)
 	Tag      string   `json:"tag,omitempty"`     // promise of the generator: "seq" | "ordered"
@@ -681,7 +682,7 @@ func (e *env) bindAll(first bool) {
 		if first && i == 0 && len(p.Preload) > 0 && adapterKind && len(*e.shared) == 0 {
 			a := e.newAdapter(kind == "distprio" || kind == "persprio")
 			e.adapters = e.adapters[:0] // bind() below takes it again
-			a.preload(p.Preload, p.BadEntry)
+			a.preload(p.Preload, p.BadEntry, p.BadKinds)
 		}
 		c := e.call("bind", kind)
 		e.qs = append(e.qs, e.bind(kind))
